@@ -1187,6 +1187,8 @@ func main() {
 			g.histCrash(crashOpts{kinds: []string{"kv", "list", "set", "zset"}, power: true, allTorn: g.c.AllTorn})
 		case "powerkv":
 			g.histCrash(crashOpts{kinds: []string{"kv"}, power: true, allTorn: g.c.AllTorn})
+		case "powermergekv": // C11: power loss in workloads that also merge
+			g.histCrash(crashOpts{kinds: []string{"kv"}, power: true, wmerge: true, allTorn: g.c.AllTorn})
 		case "crashcont": // C10/C09: the history continues on the crashed directory
 			g.histCrashCont([]string{"kv", "list", "set", "zset"})
 		case "crashcontkv":
